@@ -7,6 +7,7 @@ import (
 	"go/parser"
 	"go/printer"
 	"go/token"
+	"os"
 	"path/filepath"
 	"strings"
 
@@ -461,6 +462,250 @@ func roundAbandoned(fset *token.FileSet, sched *ast.File) bool {
 	return before
 }
 
+// ---- the hand-over of a round's verdict (outcomeCh) -----------------------------------------------------------------
+
+// astPath: the chain of nodes from root down to target (both included), nil if target is not below root.
+func astPath(root, target ast.Node) []ast.Node {
+	var stack, found []ast.Node
+	ast.Inspect(root, func(n ast.Node) bool {
+		if found != nil {
+			return false
+		}
+		if n == nil {
+			stack = stack[:len(stack)-1]
+			return true
+		}
+		stack = append(stack, n)
+		if n == target {
+			found = append([]ast.Node(nil), stack...)
+			return false
+		}
+		return true
+	})
+	return found
+}
+
+// outcomeChanCapacity (manager.go, acquireTasks): the loop body of DEPLOYMENT_ATTEMPTS_LOOP hands the scheduler a
+// `&ResourceOffersDeploymentRequest{… outcomeCh: X …}` (top-level send on m.tasksToDeploy); X is defined exactly once in the
+// function, by a top-level `X := make(chan ResourceOffersOutcome[, N])` of the loop body that precedes the send (a channel
+// per attempt); X is received from exactly once in the function, at the top level of the loop body after the send. The
+// answer is the integer literal N (no capacity argument: 0). Any other shape: 0.
+func outcomeChanCapacity(fset *token.FileSet, fd *ast.FuncDecl, loop *ast.ForStmt) int {
+	if fd == nil || loop == nil {
+		return 0
+	}
+	sendAt, name := -1, ""
+	for i, st := range loop.Body.List {
+		s, ok := st.(*ast.SendStmt)
+		if !ok || exprStr(fset, s.Chan) != "m.tasksToDeploy" {
+			continue
+		}
+		if sendAt >= 0 {
+			return 0 // two requests per attempt
+		}
+		sendAt = i
+		u, ok := s.Value.(*ast.UnaryExpr)
+		if !ok || u.Op != token.AND {
+			return 0
+		}
+		cl, ok := u.X.(*ast.CompositeLit)
+		if !ok || exprStr(fset, cl.Type) != "ResourceOffersDeploymentRequest" {
+			return 0
+		}
+		for _, e := range cl.Elts {
+			kv, ok := e.(*ast.KeyValueExpr)
+			if !ok {
+				return 0
+			}
+			if exprStr(fset, kv.Key) == "outcomeCh" {
+				id, ok := kv.Value.(*ast.Ident)
+				if !ok {
+					return 0
+				}
+				name = id.Name
+			}
+		}
+	}
+	if sendAt < 0 || name == "" {
+		return 0
+	}
+	// definitions of the channel variable in the whole function
+	defs, capacity, defAt := 0, 0, -1
+	ast.Inspect(fd.Body, func(n ast.Node) bool {
+		as, ok := n.(*ast.AssignStmt)
+		if !ok {
+			return true
+		}
+		for _, l := range as.Lhs {
+			if id, ok := l.(*ast.Ident); ok && id.Name == name {
+				defs++
+			}
+		}
+		return true
+	})
+	for i, st := range loop.Body.List[:sendAt] {
+		as, ok := st.(*ast.AssignStmt)
+		if !ok || as.Tok != token.DEFINE || len(as.Lhs) != 1 || len(as.Rhs) != 1 || exprStr(fset, as.Lhs[0]) != name {
+			continue
+		}
+		call, ok := as.Rhs[0].(*ast.CallExpr)
+		if !ok || exprStr(fset, call.Fun) != "make" || len(call.Args) < 1 || len(call.Args) > 2 ||
+			exprStr(fset, call.Args[0]) != "chan ResourceOffersOutcome" {
+			return 0
+		}
+		defAt = i
+		if len(call.Args) == 2 {
+			lit, ok := call.Args[1].(*ast.BasicLit)
+			if !ok || lit.Kind != token.INT {
+				return 0
+			}
+			fmt.Sscanf(lit.Value, "%d", &capacity)
+		}
+	}
+	if defs != 1 || defAt < 0 {
+		return 0
+	}
+	// receives from it: one, a top-level statement of the loop body after the send
+	recvs, top := 0, 0
+	ast.Inspect(fd.Body, func(n ast.Node) bool {
+		if u, ok := n.(*ast.UnaryExpr); ok && u.Op == token.ARROW && exprStr(fset, u.X) == name {
+			recvs++
+		}
+		return true
+	})
+	for _, st := range loop.Body.List[sendAt+1:] {
+		if as, ok := st.(*ast.AssignStmt); ok && len(as.Rhs) == 1 && exprStr(fset, as.Rhs[0]) == "<-"+name {
+			top++
+		}
+	}
+	if recvs != 1 || top != 1 {
+		return 0
+	}
+	return capacity
+}
+
+// oneVerdictPerRequest (all non-test files of core/task): there is exactly one send on an `outcomeCh` and exactly one
+// receive from a `tasksToDeploy` in the package, both in the same function of scheduler.go (the handler of an OFFERS event);
+// the receive is `deploymentRequestPayload = <-state.tasksToDeploy`, the only assignment to that variable in the function;
+// the send is on `deploymentRequestPayload.outcomeCh`; neither lies in a loop of that function; the send's `select` is
+// reached from the function body through blocks and the one `if deploymentRequestPayload != nil` only; and no `return` of
+// that function lies between the two. So a request that is taken gets exactly one verdict sent.
+func oneVerdictPerRequest(fset *token.FileSet, dir string) bool {
+	pkgs, err := parser.ParseDir(fset, dir, func(fi os.FileInfo) bool { return !strings.HasSuffix(fi.Name(), "_test.go") }, 0)
+	if err != nil {
+		return false
+	}
+	var sends []*ast.SendStmt
+	var recvs []*ast.UnaryExpr
+	var sendFile, recvFile *ast.File
+	for _, pkg := range pkgs {
+		for _, f := range pkg.Files {
+			f := f
+			ast.Inspect(f, func(n ast.Node) bool {
+				switch x := n.(type) {
+				case *ast.SendStmt:
+					c := exprStr(fset, x.Chan)
+					if c == "outcomeCh" || strings.HasSuffix(c, ".outcomeCh") {
+						sends = append(sends, x)
+						sendFile = f
+					}
+				case *ast.UnaryExpr:
+					if x.Op == token.ARROW {
+						c := exprStr(fset, x.X)
+						if c == "tasksToDeploy" || strings.HasSuffix(c, ".tasksToDeploy") {
+							recvs = append(recvs, x)
+							recvFile = f
+						}
+					}
+				}
+				return true
+			})
+		}
+	}
+	if len(sends) != 1 || len(recvs) != 1 || sendFile != recvFile ||
+		filepath.Base(fset.Position(sendFile.Pos()).Filename) != "scheduler.go" {
+		return false
+	}
+	send, recv := sends[0], recvs[0]
+	if exprStr(fset, send.Chan) != "deploymentRequestPayload.outcomeCh" {
+		return false
+	}
+	sp, rp := astPath(sendFile, send), astPath(sendFile, recv)
+	innermostFunc := func(p []ast.Node) (int, ast.Node) {
+		for i := len(p) - 1; i >= 0; i-- {
+			switch p[i].(type) {
+			case *ast.FuncLit, *ast.FuncDecl:
+				return i, p[i]
+			}
+		}
+		return -1, nil
+	}
+	si, sf := innermostFunc(sp)
+	ri, rf := innermostFunc(rp)
+	if sf == nil || sf != rf {
+		return false
+	}
+	// the receive: `deploymentRequestPayload = <-….tasksToDeploy`, no loop above it
+	okRecv := false
+	for _, n := range rp[ri+1:] {
+		switch x := n.(type) {
+		case *ast.ForStmt, *ast.RangeStmt:
+			return false
+		case *ast.AssignStmt:
+			if x.Tok == token.ASSIGN && len(x.Lhs) == 1 && len(x.Rhs) == 1 && exprStr(fset, x.Lhs[0]) == "deploymentRequestPayload" && x.Rhs[0] == ast.Expr(recv) {
+				okRecv = true
+			}
+		}
+	}
+	if !okRecv {
+		return false
+	}
+	// the send: function body → blocks, `if deploymentRequestPayload != nil`, select, comm clause → send
+	ifs := 0
+	for _, n := range sp[si+1 : len(sp)-1] {
+		switch x := n.(type) {
+		case *ast.BlockStmt, *ast.SelectStmt, *ast.CommClause:
+		case *ast.IfStmt:
+			if x.Init != nil || exprStr(fset, x.Cond) != "deploymentRequestPayload != nil" || !(x.Body.Pos() <= send.Pos() && send.End() <= x.Body.End()) {
+				return false
+			}
+			ifs++
+		default:
+			return false
+		}
+	}
+	if ifs != 1 {
+		return false
+	}
+	// the function itself: one assignment to the variable, no return between the receive and the send
+	var body *ast.BlockStmt
+	switch x := sf.(type) {
+	case *ast.FuncLit:
+		body = x.Body
+	case *ast.FuncDecl:
+		body = x.Body
+	}
+	assigns, ok := 0, true
+	ast.Inspect(body, func(n ast.Node) bool {
+		switch x := n.(type) {
+		case *ast.FuncLit:
+			return false // another function's returns
+		case *ast.AssignStmt:
+			for _, l := range x.Lhs {
+				if exprStr(fset, l) == "deploymentRequestPayload" {
+					assigns++
+				}
+			}
+		case *ast.ReturnStmt:
+			if recv.End() < x.Pos() && x.Pos() < send.Pos() {
+				ok = false
+			}
+		}
+		return true
+	})
+	return ok && assigns == 1
+}
+
 // GenFacts is the exported entry point (probe program: `c02probe -facts <repo>`).
 func GenFacts(repo string) (string, error) { return genFacts(repo) }
 
@@ -484,8 +729,10 @@ func genFacts(repo string) (string, error) {
 	// the attempt loop: files that cannot be read give `false` / 0 facts, not an error
 	var maxAtt int
 	var attResets, attOnlyCrit, attBreaks, attDetaches, rndAbandoned bool
+	outCap := 0
 	if acq := funcDecl(man, "Manager", "acquireTasks"); acq != nil {
 		loop, parent, _ := attemptLoop(acq)
+		outCap = outcomeChanCapacity(fset, acq, loop)
 		if state, e := parse("core/task/schedulerstate.go"); e == nil {
 			maxAtt = maxAttempts(fset, loop, state)
 		}
@@ -533,6 +780,8 @@ func genFacts(repo string) (string, error) {
 	fmt.Fprintf(&b, "/-- core/task/manager.go: `if deploymentSuccess { …; break DEPLOYMENT_ATTEMPTS_LOOP }`, then only logging and the pause -/\ndef attemptLoopBreaksOnSuccess : Bool := %v\n\n", attBreaks)
 	fmt.Fprintf(&b, "/-- core/task/manager.go: after the loop `if !deploymentSuccess` detaches the launched tasks (`SetParent(nil)`) and\n    returns a TasksDeploymentError; roles get their task (`SetTask`) only under `if deploymentSuccess` -/\ndef failedDeploymentDetaches : Bool := %v\n\n", attDetaches)
 	fmt.Fprintf(&b, "/-- core/task/scheduler.go: a descriptor whose machine_id has no offer becomes undeployable in the pre-processing, and\n    the offers are processed (tasks launched) only `if len(descriptorsUndeployable) == 0` -/\ndef roundAbandonedWhenUndeployable : Bool := %v\n\n", rndAbandoned)
+	fmt.Fprintf(&b, "/-- core/task/manager.go: the channel acquireTasks puts into the `outcomeCh` field of the request it hands to the scheduler\n    is made afresh in every pass of DEPLOYMENT_ATTEMPTS_LOOP by `make(chan ResourceOffersOutcome, N)`, acquireTasks receives\n    from it once per pass; this is N (0: no capacity argument = unbuffered, or shape not recognised) -/\ndef outcomeChanCapacity : Nat := %d\n\n", outCap)
+	fmt.Fprintf(&b, "/-- core/task (every non-test file): exactly one send on an `outcomeCh` and one receive from `tasksToDeploy`, both in the\n    same function of scheduler.go (resourceOffers), outside every loop of it; the send is on the channel of the request\n    that was taken, under no condition but `deploymentRequestPayload != nil`, and no `return` lies between the two -/\ndef oneVerdictPerRequest : Bool := %v\n\n", oneVerdictPerRequest(fset, filepath.Join(repo, "core/task")))
 	b.WriteString("end Gen.C02\n")
 	return b.String(), nil
 }
